@@ -145,6 +145,10 @@ def run(ctx: Ctx) -> None:
     cm = base.methods["connection_made"]
     wsrc = [val for st, tgt, val in attr_writes(cm, "_writer")]
     ctx.ob("C02.R1", cm, "the writer is the transport's write", len(wsrc) == 1 and norm(wsrc[0]) in ("self._transport.write", "transport.write"), f"{[norm(w) for w in wsrc]}")
+    # ... everywhere: the writer slot only ever holds the transport's own write (or None once closed) - never a queue,
+    # a wrapper or another sink that could hold back, reorder or duplicate what write_packets hands over
+    others = [(f, val) for f in ctx.repo.all_funcs() for st, tgt, val in attr_writes(f, "_writer") if not (val is None or (isinstance(val, ast.Constant) and val.value is None) or (isinstance(val, ast.Attribute) and val.attr == "write" and "transport" in norm(val.value)))]
+    ctx.ob("C02.R1", "_frame_helper.base:APIFrameHelper", "the writer slot holds the transport's write or None, nothing else", not others, f"{[(f.qualname, norm(v)[:40]) for f, v in others]}: writes would go somewhere else than straight to the transport (held back, reordered, dropped)")
     sm = ctx.repo.func("connection", "APIConnection.send_messages")
     wps = {c.methods["write_packets"] for c in (plain, noise)}
     counts, in_loop = count_states(ctx, sm, lambda c: bool(wps & set(res.callees(sm, c).funcs)))
